@@ -47,9 +47,12 @@ PairLinePool == {s \in LinePool : s.sep \notin {Cont, ContCR}} \cup
 (* Exhaustive groups fix one line style (and name case, padding, typedef style) per document and *)
 (* alternate it with the default style item by item, so that the product stays enumerable; the    *)
 (* group "all" (simulation) chooses independently per item.                                       *)
-LineStyles == IF Group = "all" THEN LinePool
+Cmt3 == <<SP, "#", SP, "a", SP, "#", SP, "b">>                  \* hostile: a '#' inside the comment
+Cmt4 == <<SP, "#", SP, "i", "t", DQ, "s">>                       \* hostile: an odd number of double quotes
+HostilePool == {[lead |-> <<>>, sep |-> <<SP>>, trail |-> Cmt3, eol |-> <<NL>>], [lead |-> <<>>, sep |-> <<SP>>, trail |-> Cmt4, eol |-> <<NL>>]}
+LineStyles == IF Group = "hostile" THEN HostilePool ELSE IF Group = "all" THEN LinePool
               ELSE IF Group = "lines" THEN {dsty.line, DefaultLine} ELSE {DefaultLine}
-PairStyles == IF Group = "all" THEN PairLinePool
+PairStyles == IF Group = "hostile" THEN HostilePool ELSE IF Group = "all" THEN PairLinePool
               ELSE IF Group = "lines" THEN {IF dsty.line \in PairLinePool THEN dsty.line ELSE DefaultLine, DefaultLine}
               ELSE {DefaultLine}
 
